@@ -580,6 +580,16 @@ def raw_only(facts):
     return [f for f in facts if f.raw is None]
 
 
+def canonical(facts):
+    """One atom per source condition, in terms of what the locals stand
+    for: a directly read atom is replaced by its copy-propagated twin(s)
+    when it has any - for exact guard sets that must not depend on how
+    intermediate values are named."""
+    facts = list(facts)
+    twinned = set(f.raw.key for f in facts if f.raw is not None)
+    return [f for f in facts if f.raw is not None or f.key not in twinned]
+
+
 def show(atom):
     key = atom.key
     kind = key[0]
